@@ -113,33 +113,3 @@ Proof.
       split; [split; intro H; discriminate H|]. split; reflexivity.
 Qed.
 Print Assumptions C01_wf_example.
-
-(* ---- the same theorems for the BUNDLED cipher: the pyaes model of C16 satisfies the two
-   hypotheses (Proofs/AesProofs.v: aes_E_len, aes_DE16), so nothing is assumed about AES ---- *)
-From Bec2 Require Import Model.Aes Proofs.AesProofs.
-
-Theorem C01_bundled_aes_binary : forall cs off k b check,
-  Forall wf_comp cs -> to_binary (adapter_encrypt aes_E) (adapter_mac aes_E) cs off k = Ok b ->
-  from_binary (adapter_decrypt aes_D) (adapter_mac aes_E) (mkR b off) check k = Ok (map view cs).
-Proof. exact (C01_binary aes_E aes_D aes_E_len aes_DE16). Qed.
-Print Assumptions C01_bundled_aes_binary.
-
-Theorem C01_bundled_aes_text_stream : forall f k t check,
-  wf_file f -> write_file (adapter_encrypt aes_E) (adapter_mac aes_E) f k = Ok t ->
-  read_file (adapter_decrypt aes_D) (adapter_mac aes_E) t check k = Ok (file_view f).
-Proof. exact (C01_text_stream aes_E aes_D aes_E_len aes_DE16). Qed.
-Print Assumptions C01_bundled_aes_text_stream.
-
-Theorem C01_bundled_aes_text_path : forall f k t check,
-  wf_file f -> comments_no_cr (f_comments f) ->
-  write_file (adapter_encrypt aes_E) (adapter_mac aes_E) f k = Ok t ->
-  read_file (adapter_decrypt aes_D) (adapter_mac aes_E) (universal_in (crlf_out t)) check k = Ok (file_view f).
-Proof. exact (C01_text_path aes_E aes_D aes_E_len aes_DE16). Qed.
-Print Assumptions C01_bundled_aes_text_path.
-
-Theorem C01_bundled_aes_plain_unchanged : forall f k t check,
-  wf_file f -> Forall (fun c => c_enc c = false) (f_comps f) ->
-  write_file (adapter_encrypt aes_E) (adapter_mac aes_E) f k = Ok t ->
-  read_file (adapter_decrypt aes_D) (adapter_mac aes_E) t check k = Ok f.
-Proof. exact (C01_plain_unchanged aes_E aes_D aes_E_len aes_DE16). Qed.
-Print Assumptions C01_bundled_aes_plain_unchanged.
